@@ -224,13 +224,15 @@ Proof. split; [unfold no_wrap; simpl; lia|]. split; vm_compute; reflexivity. Qed
 
 Lemma cfg_ok_variant c : cfg_ok c = true -> variant_of c = Some (true, true, true) /\ validate_ok c = true.
 Proof.
-  unfold cfg_ok. destruct (variant_of c) as [[[[|] [|]] [|]]|]; try discriminate. intro H.
+  unfold cfg_ok. destruct (variant_of c) as [[[[|] [|]] [|]]|]; try discriminate.
+  destruct (dup_variant c) as [[|]|]; try discriminate. intro H.
   apply andb_true_iff in H as [H _]. split; [reflexivity | exact H].
 Qed.
-Lemma cfg_ok_voter c : cfg_ok c = true -> voter_canonical c = true.
+Lemma cfg_ok_voter c : cfg_ok c = true -> voter_canonical c = true /\ dup_variant c = Some true.
 Proof.
-  unfold cfg_ok. destruct (variant_of c) as [[[[|] [|]] [|]]|]; try discriminate. intro H.
-  apply andb_true_iff in H as [_ H]. exact H.
+  unfold cfg_ok. destruct (variant_of c) as [[[[|] [|]] [|]]|]; try discriminate.
+  destruct (dup_variant c) as [[|]|]; try discriminate. intro H.
+  apply andb_true_iff in H as [_ H]. split; [exact H | reflexivity].
 Qed.
 
 (** for a configuration accepted by [cfg_ok] the model denoted by it is the one all theorems are about *)
@@ -243,12 +245,12 @@ Proof.
   intros Hc p st h Hw. exists (end_block true p st h). split; [apply end_block_cfg_ok; exact Hc | apply end_block_holds; exact Hw].
 Qed.
 
-(** the message-level model of the code described by [c]: the median variant and which Voter string the message
-    server stores *)
+(** the message-level model of the code described by [c]: the median variant, which Voter string the message
+    server stores and which duplicate test the vote-string parser applies *)
 Definition mhist_obs_cfg (c : code_cfg) (p : params) (s : mstate) (xs : list (henv * mstep)) : option (list (henv * mstep * mobs)) :=
-  match variant_of c with
-  | Some (fx, true, true) => Some (mhist_obs (voter_canonical c) fx p s xs)
-  | _ => None
+  match variant_of c, dup_variant c with
+  | Some (fx, true, true), Some dc => Some (mhist_obs (voter_canonical c) dc fx p s xs)
+  | _, _ => None
   end.
 
 Theorem msg_holds_for_cfg c : cfg_ok c = true ->
@@ -256,6 +258,6 @@ Theorem msg_holds_for_cfg c : cfg_ok c = true ->
   exists o, mhist_obs_cfg c p s xs = Some o /\
             P_mhist p (ms_rates s) (map to_avote (ms_votes s)) (map to_prevote (ms_prevotes s)) o.
 Proof.
-  intros Hc p xs Hw s Hs. exists (mhist_obs true true p s xs). split; [|apply mhist_holds; assumption].
-  unfold mhist_obs_cfg. destruct (cfg_ok_variant c Hc) as [-> _]. rewrite (cfg_ok_voter c Hc). reflexivity.
+  intros Hc p xs Hw s Hs. exists (mhist_obs true true true p s xs). split; [|apply mhist_holds; assumption].
+  unfold mhist_obs_cfg. destruct (cfg_ok_variant c Hc) as [-> _]. destruct (cfg_ok_voter c Hc) as [-> ->]. reflexivity.
 Qed.
